@@ -63,8 +63,10 @@ Next ==
               /\ wrote' = wrote \ {e.a}
               /\ UNCHANGED <<atOwner, win, calls, got>>
          [] e.ev = "pc.put" ->
-              /\ IF Held(pcOwner, e.a) /\ pcOwner[e.a] = e.g /\ e.a \in wrote THEN bad' = bad
-                 ELSE Reject("PrintCtx returned to the pool by a goroutine that does not hold it, or before it was written out")
+              \* (a blank Print/Println writes a constant newline and never writes the object's buffer out,
+              \* so "written" is not required here; a write after the put is rejected at write.begin)
+              /\ IF Held(pcOwner, e.a) /\ pcOwner[e.a] = e.g THEN bad' = bad
+                 ELSE Reject("PrintCtx returned to the pool by a goroutine that does not hold it")
               /\ pcOwner' = Drop(pcOwner, e.a)
               /\ UNCHANGED <<atOwner, win, wrote, calls, got>>
          [] e.ev = "write.begin" ->
@@ -93,6 +95,9 @@ Next ==
               /\ IF e.same THEN bad' = bad ELSE Reject("a delivered payload is not the complete record of exactly one call")
               /\ got' = IF e.call \in DOMAIN got THEN [got EXCEPT ![e.call] = @ + 1] ELSE (e.call :> 1) @@ got
               /\ UNCHANGED <<pcOwner, atOwner, win, wrote, calls>>
+         [] e.ev = "blank" ->        \* blank Print/Println calls arrive as single newlines, one each
+              /\ IF e.got = e.want THEN bad' = bad ELSE Reject("multiset: number of single-newline payloads differs from the blank Print/Println calls")
+              /\ UNCHANGED <<pcOwner, atOwner, win, wrote, calls, got>>
          [] e.ev = "end" ->
               /\ IF /\ DOMAIN got = calls
                     /\ \A c \in DOMAIN got : got[c] = 1
